@@ -138,7 +138,14 @@ class Built:
             return L.Template(tokens_to_str(nd["s"]), **{p["name"]: O[p["n"]] for p in nd["ps"]})
         if k == "apply":
             f = self.fn("apply", nd["f"], i)
-            return (O[nd["src"]] >> f) if self.style.get("rshift") else O[nd["src"]].apply(f)
+            if nd.get("fp"):
+                # a decorated pipeline step whose parameter is produced by another node
+                def stepfn(x, p=O[nd["fp"]], _f=f):
+                    return _f(x, p)
+
+                stepfn.__name__ = "step_" + nd["f"]
+                f = L.pipeline_step(stepfn)
+            return (O[nd["src"]] >> f) if (self.style.get("rshift") or i % 2) else O[nd["src"]].apply(f)
         if k == "bind":
             table = [(dec(e["v"]), O[e["n"]]) for e in nd["lk"]]
             other = O[nd["other"]] if nd["other"] else None
